@@ -7,7 +7,8 @@ Each mutant is a directory selftest/mutants/<name>/ with
   cmd          one line: arguments to bin/gvc run with -repo <worktree> (e.g. "olayer -func filter.gen.genFuncFor")
   expect       substring that must occur in a FAIL line (obligation name)
 """
-import os, subprocess, sys, tempfile, shutil, glob
+import os, subprocess, sys, tempfile, shutil, glob, threading
+GITLOCK = threading.Lock()
 
 VERIF = os.path.dirname(os.path.dirname(os.path.abspath(__file__)))
 REPO = "/repo"
@@ -20,7 +21,8 @@ def run_one(d):
     wt = tempfile.mkdtemp(prefix="gvc-mut-")
     os.rmdir(wt)
     try:
-        subprocess.check_call(["git", "-C", REPO, "worktree", "add", "-q", "--detach", wt, "HEAD"])
+        with GITLOCK:
+            subprocess.check_call(["git", "-C", REPO, "worktree", "add", "-q", "--detach", wt, "HEAD"])
         # uncommitted contract files travel with the mutant
         for f in subprocess.check_output(["git", "-C", REPO, "ls-files", "-m", "-o", "--exclude-standard"], text=True).split():
             if f.endswith("contracts_verif.go"):
@@ -54,7 +56,8 @@ def run_one(d):
             return name, "caught-elsewhere", fails[0][:160]
         return name, "MISSED", (p.stdout + p.stderr)[-300:]
     finally:
-        subprocess.call(["git", "-C", REPO, "worktree", "remove", "--force", wt], stderr=subprocess.DEVNULL)
+        with GITLOCK:
+            subprocess.call(["git", "-C", REPO, "worktree", "remove", "--force", wt], stderr=subprocess.DEVNULL)
         shutil.rmtree(wt, ignore_errors=True)
 
 def main():
